@@ -90,7 +90,7 @@ def _typemix(rng):
     a, b = rng.choice([("Me_i", "Me_n"), ("Me_n", "Me_i"), ("Me_i", "2.25"), ("2.25", "Me_i"), ("Me_i", "Me_i"), ("7", "Me_n")])
     k = rng.choice([0, 1, 2])
     stmts = [f"DS_a <- DS_1[calc Me_r := if Me_i > {k} then {a} else {b}];", f"DS_b <- DS_1[calc Me_r := case when Me_i > {k} then {a} when Me_n < 1 then {b} else {a}];",
-             f"DS_c <- DS_1[calc Me_r := nvl({a if not a[0].isdigit() else 'Me_i'}, {b})];", f"DS_d <- nvl(DS_1[keep Me_i], {rng.choice(['2.25', '3', '0.5'])});",
+             f"DS_nvl_c <- DS_1[calc Me_r := nvl({a if not a[0].isdigit() else 'Me_i'}, {b})];", f"DS_nvl_d <- nvl(DS_1[keep Me_i], {rng.choice(['2.25', '3', '0.5'])});",
              f"DS_e <- if DS_1#Me_i > {k} then DS_1[keep Me_i] else DS_1[keep Me_n][rename Me_n to Me_i];", f"sc_a <- if {k} > 0 then 1 else 2.5; sc_b <- nvl(cast(null, integer), 2.5);",
              f"DS_f <- DS_1[calc Me_r := {a} + {b}, Me_s := {a} * {b}, Me_t := {a} - {b}];", f"DS_g <- DS_1[aggr Me_r := sum(Me_i), Me_s := avg(Me_i), Me_t := max(Me_n) group by Id_1];",
              f"DS_h <- union(DS_1[keep Me_i], DS_1[keep Me_n][rename Me_n to Me_i][calc identifier Id_1 := Id_1 + 100]);"]
